@@ -147,6 +147,8 @@ def s_modify_inds(net, k, inds):
     def f(mk, st):
         tn = st["nets"][net]
         tids = sorted(tn.tensor_map)
+        if k >= len(tids):
+            raise Skip("no such tensor")
         t = tn.tensor_map[tids[k]]
         if t.ndim != len(inds):
             raise Skip("rank mismatch")
@@ -158,6 +160,8 @@ def s_retag_tensor(net, k, old, new):
     def f(mk, st):
         tn = st["nets"][net]
         tids = sorted(tn.tensor_map)
+        if k >= len(tids):
+            raise Skip("no such tensor")
         tn.tensor_map[tids[k]].retag_({st["G"][old]: st["G"][new]})
     return (f"tensor{k}@{net}.retag_(G{old}->G{new})", f)
 
@@ -172,6 +176,8 @@ def s_add_tag(net, k, g):
     def f(mk, st):
         tn = st["nets"][net]
         tids = sorted(tn.tensor_map)
+        if k >= len(tids):
+            raise Skip("no such tensor")
         tn.tensor_map[tids[k]].add_tag(st["G"][g])
     return (f"tensor{k}@{net}.add_tag(G{g})", f)
 
@@ -180,6 +186,8 @@ def s_drop_tag(net, k, g):
     def f(mk, st):
         tn = st["nets"][net]
         tids = sorted(tn.tensor_map)
+        if k >= len(tids):
+            raise Skip("no such tensor")
         tn.tensor_map[tids[k]].drop_tags(st["G"][g])
     return (f"tensor{k}@{net}.drop_tags(G{g})", f)
 
